@@ -418,6 +418,123 @@ theorem C17_live_kill (a b : List Alt) (d : Alt) (ahead : Nat) (ctx : Bool) :
   rw [List.append_assoc, run_append sp _ _ _ _ h1, run_append sp _ _ _ _ (run_dequeueOther sp ahead _ rfl rfl)]
   simp [sp, run, step, advance]
 
+/-- … an Announce-shaped call (`[lookup, send]`: look the torrent up, then post the command):
+    with the torrent listed and the loop running it returns nil. -/
+theorem C17_live_announce (a : List Alt) (cc : Bool) (d : Alt) (ahead : Nat) (ctx : Bool) :
+    let sp : Spec := ⟨[.lookup, .send a], false, cc, d⟩
+    ∃ c, run sp (init sp ctx true ahead) [.lookupOk, .enqueue] = some c ∧
+      c.res = some .ok ∧ c.tear = 0 := by
+  simp [run, step, init, advance]
+
+/-- … a Reader.Read-shaped call (`[send, reply, signal]`: Request, then the wait for the piece
+    with Done / context alternatives): the loop works off the queue, answers the request,
+    later closes the piece's channel (the data arrived), and Read goes on to return data. -/
+theorem C17_live_read (a b e : List Alt) (s cc : Bool) (d : Alt) (ahead : Nat) (ctx : Bool) :
+    let sp : Spec := ⟨[.send a, .reply s b, .signal e], false, cc, d⟩
+    ∃ c, run sp (init sp ctx true ahead)
+        ([.enqueue] ++ List.replicate ahead .dequeueOther ++
+          [.dequeueMine, .recvReply, .closeSig, .recvSignal]) = some c
+      ∧ c.res = some .ok ∧ c.tear = 0 := by
+  intro sp
+  have h1 : run sp (init sp ctx true ahead) [.enqueue] =
+      some { tear := 0, ctx := ctx, room := true, ahead := ahead, todo := [.reply s b, .signal e],
+             res := none, cmd := .queued ahead, sig := false } := by
+    simp [sp, run, step, init, advance]
+  rw [List.append_assoc, run_append sp _ _ _ _ h1, run_append sp _ _ _ _ (run_dequeueOther sp ahead _ rfl rfl)]
+  simp [sp, run, step, advance, Spec.hasReply, Phase.isReply]
+
+/-- … and while the piece has not arrived, a cancelled context ends the wait (the only
+    alternative to Done a reader has): the call returns the context's error. -/
+theorem C17_live_read_ctx (a b e : List Alt) (s cc : Bool) (d : Alt) (ahead : Nat)
+    (he : e.contains .ctxDone = true) :
+    let sp : Spec := ⟨[.send a, .reply s b, .signal e], false, cc, d⟩
+    ∃ c, run sp (init sp false true ahead)
+        ([.enqueue] ++ List.replicate ahead .dequeueOther ++
+          [.dequeueMine, .recvReply, .cancelCtx, .retCtx]) = some c
+      ∧ c.res = some .ctx ∧ c.tear = 0 := by
+  intro sp
+  have h1 : run sp (init sp false true ahead) [.enqueue] =
+      some { tear := 0, ctx := false, room := true, ahead := ahead, todo := [.reply s b, .signal e],
+             res := none, cmd := .queued ahead, sig := false } := by
+    simp [sp, run, step, init, advance]
+  rw [List.append_assoc, run_append sp _ _ _ _ h1, run_append sp _ _ _ _ (run_dequeueOther sp ahead _ rfl rfl)]
+  have he' : Alt.ctxDone ∈ e := by simpa using he
+  simp [sp, run, step, advance, finish, Spec.hasReply, Phase.isReply, Phase.alts, he']
+
+/-! ### liveness once the loop is dying or dead: the call RETURNS (not merely "is enabled") -/
+
+theorem caller_step_tear (sp : Spec) (c c' : Cfg) (l : Label) (hl : l.isCaller = true)
+    (h : step sp c l = some c') : c'.tear = c.tear := by
+  cases l <;> simp only [step] at h <;> (repeat' split at h) <;>
+    simp_all [advance, finish, Label.isCaller] <;>
+    (try (obtain ⟨_, rfl⟩ := h; rfl)) <;> (try (subst h; rfl))
+
+theorem callerLabels_isCaller : ∀ l ∈ callerLabels, l.isCaller = true := by decide
+
+theorem run_cons_some (sp : Spec) (c c1 c2 : Cfg) (l : Label) (ls : List Label)
+    (h1 : step sp c l = some c1) (h2 : run sp c1 ls = some c2) : run sp c (l :: ls) = some c2 := by
+  simp [run, h1, h2]
+
+/-- **Dying / dead torrent: every call returns.**  From every reachable configuration in which
+    the loop has exited — wherever it stopped relative to the call, whatever was queued —
+    there is a finite continuation consisting only of the caller's own steps and the
+    teardown's remaining steps (nobody else is needed) after which the call has returned;
+    by `C17_no_hang` + `C17_caller_terminates` every maximal run is such a continuation. -/
+theorem C17_exited_returns (sp : Spec) (hg : sp.guarded = true) (hs : sp.replySafe = true) :
+    ∀ (n : Nat) (c : Cfg), Reach sp c → 1 ≤ c.tear → measure c * 5 + (4 - c.tear) ≤ n →
+      ∃ ls c', run sp c ls = some c' ∧ c'.res.isSome = true ∧
+        (∀ l ∈ ls, l.isCaller = true ∨ l = .tearNext) := by
+  intro n
+  induction n with
+  | zero =>
+    intro c hr ht hm
+    cases hres : c.res with
+    | some r => exact ⟨[], c, rfl, by simp [hres], by simp⟩
+    | none => simp [measure, hres] at hm
+  | succ n ih =>
+    intro c hr ht hm
+    cases hres : c.res with
+    | some r => exact ⟨[], c, rfl, by simp [hres], by simp⟩
+    | none =>
+      rcases C17_no_hang sp hg hs c hr ht hres with hen | ⟨hlt, htn, _⟩
+      · simp only [callerEnabled, List.any_eq_true] at hen
+        obtain ⟨l, hl, hsome⟩ := hen
+        obtain ⟨c1, hc1⟩ := Option.isSome_iff_exists.mp hsome
+        have hcal := callerLabels_isCaller l hl
+        have hdec := (C17_caller_terminates sp c c1 l hc1).1 hcal
+        have htear := caller_step_tear sp c c1 l hcal hc1
+        obtain ⟨ls, c', hrun, hres', hall⟩ := ih c1 (Reach.step l hr hc1) (by omega) (by omega)
+        refine ⟨l :: ls, c', run_cons_some sp c c1 c' l ls hc1 hrun, hres', ?_⟩
+        intro x hx
+        rcases List.mem_cons.mp hx with rfl | hx
+        · exact Or.inl hcal
+        · exact hall x hx
+      · obtain ⟨c1, hc1⟩ := Option.isSome_iff_exists.mp htn
+        have hm1 := (C17_caller_terminates sp c c1 .tearNext hc1).2 rfl
+        have ht1 : c1.tear = c.tear + 1 := by
+          simp only [step] at hc1
+          split at hc1 <;> simp at hc1
+          subst hc1; rfl
+        obtain ⟨ls, c', hrun, hres', hall⟩ := ih c1 (Reach.step .tearNext hr hc1) (by omega) (by omega)
+        refine ⟨.tearNext :: ls, c', run_cons_some sp c c1 c' .tearNext ls hc1 hrun, hres', ?_⟩
+        intro x hx
+        rcases List.mem_cons.mp hx with rfl | hx
+        · exact Or.inr rfl
+        · exact hall x hx
+
+/-- the same without the bookkeeping bound -/
+theorem C17_dying_returns (sp : Spec) (hg : sp.guarded = true) (hs : sp.replySafe = true) (c : Cfg)
+    (hr : Reach sp c) (ht : 1 ≤ c.tear) :
+    ∃ ls c', run sp c ls = some c' ∧ c'.res.isSome = true ∧
+      (∀ l ∈ ls, l.isCaller = true ∨ l = .tearNext) :=
+  C17_exited_returns sp hg hs _ c hr ht (Nat.le_refl _)
+
+/-- … and a call that returns after the loop's exit without having been answered reports the
+    death: a request/reply call whose command was never dequeued cannot return a value. -/
+theorem C17_unanswered_not_ok (sp : Spec) (hs : sp.replySafe = true) (c : Cfg) (hr : Reach sp c)
+    (hrep : sp.hasReply = true) (hq : ∃ k, c.cmd = .queued k) (ht : c.tear = 0) : c.res = none :=
+  ((inv_reach sp hs c hr).pending hrep ht (Or.inr hq)).1
+
 /-! ### what the unrepaired source did, and what remains false -/
 
 /-- the spec the table gave for `Torrent.Request` before the repair: bare reply receive -/
@@ -551,6 +668,107 @@ theorem C17_deletion_progress (d : Del) (ht : 1 ≤ d.tear) (i : Nat) :
   rw [C17_del_facts]
   constructor <;> intro h <;> simp [dstep, h, ht]
 
+/-! ## the life of a connection handed to the torrent -/
+
+def connFacts : ConnFacts :=
+  connFactsOf Gen.addPeerRunsPeer Gen.addPeerExitsBeforeRun Gen.newPeerReturns Gen.peerRunClosesConnFirst
+
+/-- the source facts, by table: the TorAddPeer case starts peer.Run unconditionally (no
+    return/break/panic before it); every return of NewPeer other than the `return nil` after
+    the send is preceded by conn.Close(); peer.Run's first defer closes the connection -/
+theorem C17_gen_conn_facts : connFacts = ⟨true, true, true⟩ := by decide
+
+structure CInv (c : CC) : Prop where
+  notDropped : c.conn ≠ .dropped
+  tear : c.tear ≤ 4
+  ownedOk : c.conn = .owned → c.res = some .ok
+  callerNone : c.conn = .caller → c.res = none
+  queuedOk : c.conn = .queued → c.res = some .ok
+
+theorem cinv_reach (b : Branch) (c : CC) (h : CReach ⟨true, true, true⟩ b c) : CInv c := by
+  induction h with
+  | init => exact ⟨by decide, by decide, by decide, by intro _; rfl, by decide⟩
+  | step l _ hs ih =>
+    obtain ⟨h1, h2, h3, h4, h5⟩ := ih
+    cases l <;> simp only [cstep, handlerRuns] at hs <;> split at hs <;> simp at hs <;> subst hs
+    · exact ⟨by simp, h2, by simp, by simp, by simp⟩
+    · exact ⟨by simp, h2, by simp, by simp, by simp⟩
+    · rename_i hc
+      exact ⟨by simp, h2, fun _ => h5 hc.1, by simp, by simp⟩
+    · exact ⟨by simp, h2, by simp, by simp, by simp⟩
+    · exact ⟨h1, by simp, h3, h4, h5⟩
+    · rename_i hc; exact ⟨h1, by simp; omega, h3, h4, h5⟩
+
+/-- **Closed or owned.**  For every one of the hand-over circumstances and every interleaving:
+    a connection handed to the torrent is never dropped — at every moment it is still with the
+    caller (who will post it or close it), in the queue, owned by a running peer, or closed;
+    a peer that owns it can always exit and that closes it; NewPeer reports ErrTorrentDead only
+    after closing it. -/
+theorem C17_conn_closed_or_owned (b : Branch) (hb : b ∈ allBranches) (c : CC)
+    (h : CReach connFacts b c) :
+    (c.conn = .caller ∨ c.conn = .queued ∨ c.conn = .owned ∨ c.conn = .closed) ∧
+    (c.conn = .owned → ∃ c', cstep connFacts b c .peerExit = some c' ∧ c'.conn = .closed) ∧
+    (c.res = some .dead → c.conn = .closed) := by
+  have _ := hb
+  rw [C17_gen_conn_facts] at h ⊢
+  have hi := cinv_reach b c h
+  refine ⟨?_, ?_, ?_⟩
+  · have := hi.notDropped
+    cases hc : c.conn <;> simp_all
+  · intro ho
+    exact ⟨{ c with conn := .closed }, by simp [cstep, ho], rfl⟩
+  · -- dead is only ever set together with `closed`, and a closed connection stays closed
+    clear hi
+    induction h with
+    | init => intro h; simp [cinit] at h
+    | step l _ hs ih =>
+      cases l <;> simp only [cstep, handlerRuns] at hs <;> split at hs <;> simp at hs <;> subst hs <;>
+        simp_all
+
+/-- **The only leak, exactly.**  In every terminal configuration (no step left: every maximal
+    run), for every hand-over circumstance: the connection is not closed IF AND ONLY IF its
+    TorAddPeer event is stranded in the queue of a loop that has exited — the recorded finding
+    `conn-open:NewPeer:*:ok`.  Any other leak contradicts this theorem. -/
+theorem C17_conn_leak_iff_queued_at_exit (b : Branch) (hb : b ∈ allBranches) (c : CC)
+    (h : CReach connFacts b c) (ht : cterminal connFacts b c = true) :
+    (c.conn ≠ .closed ↔ stranded c = true) ∧ c.tear = 4 := by
+  have _ := hb
+  rw [C17_gen_conn_facts] at h ht
+  have hi := cinv_reach b c h
+  simp only [cterminal, allCLabels, List.all_cons, List.all_nil, Bool.and_true, Bool.and_eq_true,
+    Option.isNone_iff_eq_none] at ht
+  obtain ⟨hsend, _, htake, hpe, hexit, htn⟩ := ht
+  have hnc : c.conn ≠ .caller := by
+    intro hc; simp [cstep, hc] at hsend
+  have hno : c.conn ≠ .owned := by
+    intro hc; simp [cstep, hc] at hpe
+  have ht0 : c.tear ≠ 0 := by
+    intro hc; simp [cstep, hc] at hexit
+  have ht4 : c.tear = 4 := by
+    have h4 := hi.tear
+    rcases Nat.lt_or_ge c.tear 4 with hlt | hge
+    · exfalso
+      have : 1 ≤ c.tear ∧ c.tear < 4 := ⟨by omega, hlt⟩
+      simp [cstep, this] at htn
+    · omega
+  refine ⟨?_, ht4⟩
+  have hnd := hi.notDropped
+  cases hc : c.conn <;> simp_all [stranded]
+
+/-- A stranded event stays stranded (no transition touches it): the leak is permanent. -/
+theorem C17_stranded_forever (f : ConnFacts) (b : Branch) (c c' : CC) (l : CLabel)
+    (hs : stranded c = true) (h : cstep f b c l = some c') : stranded c' = true := by
+  simp only [stranded, Bool.and_eq_true, beq_iff_eq, decide_eq_true_eq] at hs ⊢
+  obtain ⟨hq, ht⟩ := hs
+  cases l <;> simp only [cstep] at h <;> split at h <;> simp at h <;> subst h <;> simp_all <;> omega
+
+/-- … and it is avoidable only by the loop: as long as the loop runs, a queued connection can
+    be taken, run and closed (take, peerExit). -/
+theorem C17_conn_can_close (b : Branch) (c : CC) (hq : c.conn = .queued) (ht : c.tear = 0) :
+    ∃ c', crun connFacts b c [.take, .peerExit] = some c' ∧ c'.conn = .closed := by
+  rw [C17_gen_conn_facts]
+  exact ⟨{ c with conn := .closed }, by simp [crun, cstep, handlerRuns, hq, ht], rfl⟩
+
 /-! ## non-vacuity -/
 example : Spec.guarded requestUnfixed = false := by decide
 example : ∃ sp, specOf Gen.blocking "GetStats" = some sp ∧ sp.phases = [.send [.tDone], .reply true [.tDone]] := by
@@ -566,5 +784,30 @@ example : ∃ c, Reach (⟨[.send [.tDone], .reply true [.tDone]], false, false,
 example : DReach delFacts 2 1 ⟨1, [false, true], [none]⟩ :=
   DReach.step (.peerExit 1)
     (DReach.step (d' := ⟨1, [false, false], [none]⟩) .exit DReach.init (by decide)) (by decide)
+
+-- the finding is reachable (so the iff is not vacuous on its right-hand side) …
+example : CReach connFacts .afterGoaway ⟨4, .queued, some .ok⟩ ∧
+    cterminal connFacts .afterGoaway ⟨4, .queued, some .ok⟩ = true ∧ stranded ⟨4, .queued, some .ok⟩ = true := by
+  refine ⟨?_, by decide, by decide⟩
+  exact CReach.step (c := ⟨3, .queued, some .ok⟩) .tearNext
+    (CReach.step (c := ⟨2, .queued, some .ok⟩) .tearNext
+      (CReach.step (c := ⟨1, .queued, some .ok⟩) .tearNext
+        (CReach.step (c := ⟨0, .queued, some .ok⟩) .exit
+          (CReach.step (c := cinit) .send CReach.init (by decide)) (by decide)) (by decide))
+      (by decide)) (by decide)
+-- … and so is the good ending, for a hand-over the handler might be tempted to refuse
+example : CReach connFacts .duplicateId ⟨0, .closed, some .ok⟩ :=
+  CReach.step (c := ⟨0, .owned, some .ok⟩) .peerExit
+    (CReach.step (c := ⟨0, .queued, some .ok⟩) .take
+      (CReach.step (c := cinit) .send CReach.init (by decide)) (by decide)) (by decide)
+-- a handler with an exit before `go peer.Run` (what seeded C17-5 did) breaks the theorem: the
+-- facts no longer evaluate to ⟨true,true,true⟩ and the model drops the connection
+example : (connFactsOf true 1 Gen.newPeerReturns true).handlerAlwaysRuns = false := by decide
+example : crun (connFactsOf true 1 Gen.newPeerReturns true) .duplicateId cinit [.send, .take] =
+    some ⟨0, .dropped, some .ok⟩ := by decide
+-- the liveness theorems' hypotheses are met by the specs read off the table
+example : ∃ sp, specOf Gen.blocking "Announce" = some sp ∧ sp.phases = [.lookup, .send [.tDone]] := by
+  decide
+example : Alt.ctxDone ∈ ([.tDone, .ctxDone] : List Alt) := by decide
 
 end Storrent.Lifecycle
